@@ -29,6 +29,7 @@ func init() {
 	verifRegister("verifC08CloseVsGather", verifC08CloseVsGather)
 	verifRegister("verifC08CloseAfterRestart", verifC08CloseAfterRestart)
 	verifRegister("verifC08CloseAfterRegather", verifC08CloseAfterRegather)
+	verifRegister("verifC09CloseVsGather", verifC09CloseVsGather)
 	verifRegister("verifC08CloseInCallback", verifC08CloseInCallback)
 	verifRegister("verifC08CloseConcurrent", verifC08CloseConcurrent)
 	verifRegister("verifC08CloseInBindingHandler", verifC08CloseInBindingHandler)
@@ -152,6 +153,22 @@ type verifC08Net struct {
 	// only the first socket opening waits for the gate (the first cycle is
 	// slow, a later one is not)
 	gateFirstOnly bool
+}
+
+func (n *verifC08Net) Interfaces() ([]*transport.Interface, error) {
+	n.mu.Lock()
+	defer n.mu.Unlock()
+
+	return append([]*transport.Interface{}, n.ifaces...), nil
+}
+
+// addAddress: a new interface with one IPv4 address shows up.
+func (n *verifC08Net) addAddress(name, ip string) {
+	ifc := transport.NewInterface(net.Interface{Index: 2, Name: name, Flags: net.FlagUp})
+	ifc.AddAddress(&net.IPNet{IP: net.ParseIP(ip).To4(), Mask: net.CIDRMask(24, 32)})
+	n.mu.Lock()
+	n.ifaces = append(n.ifaces, ifc)
+	n.mu.Unlock()
 }
 
 func (n *verifC08Net) ListenUDP(_ string, a *net.UDPAddr) (transport.UDPConn, error) {
@@ -594,6 +611,52 @@ func verifC08CloseAfterRegather() {
 	w.after()
 	w.net.mu.Lock()
 	verifAssert(len(w.net.socks) == opened, "no-cycle-opens-anything-after-Close-returned")
+	w.net.mu.Unlock()
+	verifReach("done")
+}
+
+// C09 at Close: when Close has returned, the ended generation has no open
+// socket and opens none — whatever the gathering cycle was doing when Close was
+// called (about to open its socket, busy in the network until later, handing
+// its candidate over, done).
+func verifC09CloseVsGather() {
+	w := verifC08New(true)
+	a := w.a
+	if verifChoice(2) == 1 {
+		verifReach("slow-network")
+		gate := make(chan struct{})
+		w.net.gate = gate
+		go func() {
+			verifLetOthersRun() // as late as it can: when nothing else can move any more
+			close(gate)
+		}()
+	}
+	verifAssert(a.OnCandidate(func(Candidate) {}) == nil, "handler")
+	var wg sync.WaitGroup
+	wg.Add(1)
+	go func() {
+		defer wg.Done()
+		err := a.GatherCandidates()
+		verifAssert(err == nil || verifC08Closed(err), "GatherCandidates-returns-nil-or-closed")
+	}()
+	w.closeIt()
+	w.net.mu.Lock()
+	opened := len(w.net.socks)
+	for _, c := range w.net.socks {
+		verifAssert(c.closes.Load() == 1, "when-Close-returns-every-socket-the-generation-opened-is-closed-exactly-once")
+	}
+	w.net.mu.Unlock()
+	verifReach("closed")
+	if opened > 0 {
+		verifReach("socket-opened-before-close")
+	}
+	wg.Wait()
+	verifAssert(verifQuiesce() == 0, "no-gatherer-is-left-running")
+	w.net.mu.Lock()
+	verifAssert(len(w.net.socks) == opened, "nothing-is-opened-after-Close-returned")
+	for _, c := range w.net.socks {
+		verifAssert(c.closes.Load() == 1, "no-socket-is-closed-twice")
+	}
 	w.net.mu.Unlock()
 	verifReach("done")
 }
